@@ -1521,7 +1521,11 @@ pub fn lookup(seed: u64, focus: Focus, rep: &mut Report) {
         let mut rng = Rng::new(seed ^ 0x100C);
         let mut max_nodes = *rng.pick(&[16usize, 16, 64, 4]);
         let parallelism = *rng.pick(&[3usize, 3, 1, 5]);
-        let query_timeout = Duration::from_secs(*rng.pick(&[4u64, 10, 60]));
+        // "never": the largest durations the configuration type can express. For the oracle's
+        // arithmetic such a lookup simply has no cut-off within the run (ten minutes stand in).
+        let unbounded = rng.chance(1, 10);
+        let configured_query_timeout = if unbounded { *rng.pick(&[Duration::MAX, Duration::from_secs(u64::MAX), Duration::from_secs(u64::MAX / 2 + 1)]) } else { Duration::from_secs(*rng.pick(&[4u64, 10, 60])) };
+        let query_timeout = if unbounded { Duration::from_secs(600) } else { configured_query_timeout };
         let peer_timeout = Duration::from_millis(*rng.pick(&[300u64, 2000]));
         let request_timeout = Duration::from_millis(*rng.pick(&[200u64, 1000]));
         let retries = rng.below(2) as u8;
@@ -1546,7 +1550,7 @@ pub fn lookup(seed: u64, focus: Focus, rep: &mut Report) {
                 }
                 b.max_nodes_response(max_nodes);
                 b.query_parallelism(parallelism);
-                b.query_timeout(query_timeout);
+                b.query_timeout(configured_query_timeout);
                 b.query_peer_timeout(peer_timeout);
                 b.ping_interval(Duration::from_secs(3000));
                 b.disable_enr_update();
